@@ -183,6 +183,13 @@ def verify(h, repo, tier="quick", log=None):
                     obs.append(Ob(pname, "UNSUPPORTED", reason=f"escaped: {type(out[1]).__name__}: {out[1]}", case=case))
                     continue
                 kind, res, goals, st = out[1]
+                # canary: `False` must NOT be provable on this path (contradictory requires / infeasible path)
+                cs, _, _ = prove(c, z3.BoolVal(False), timeout, use_cvc5=False)
+                stats["canaries"] = stats.get("canaries", 0) + 1
+                if cs == "PROVED":
+                    obs.append(Ob(pname + "/canary", "VACUOUS", reason="path condition with the contract's "
+                                  "assumptions is unsatisfiable", case=case))
+                    continue
                 if not goals:
                     obs.append(Ob(pname + "/feasible", "PROVED", backend="path", time=0.0, case=case))
                 for gname, goal in goals:
